@@ -1,157 +1,4 @@
-/-
-  C06 model driver. One request per line, one reply per line (S-expressions).
-
-    (doc <maxRec> <leak:0|1> (eof L C err…) tok…)   → (ret <doc> (err…) <wf> <renders>) | (rec (err…)) | oof
-    (val <maxRec> (eof L C err…) tok…)              → (ret <value> (err…)) | (rec (err…)) | oof
-    tok := (<k> "<value>" L C err…)   k ∈ p n i f s        err := (e "<msg>" L C)
-
-  <doc>/<value> is the canonical S-expression of the AST: every node is `(tag <Position()> …)` with
-  `Position()` computed as in ast.go, closing positions where ast.go stores them. <wf>/<renders> are the
-  executable specification (Spec.lean) evaluated on the model's own output: `wfDocument d` and
-  `Renders tokens d.stoks`.
--/
-import ApiFu.Common.Sexp
-import ApiFu.Common.Loop
-import ApiFu.C06.Model
-import ApiFu.C06.Spec
-
-open ApiFu ApiFu.C06
-
-namespace ApiFu.C06.Driver
-
-def posS (p : Pos) : Sexp := Sexp.atom (toString p.line ++ ":" ++ toString p.col)
-
-def nameS (n : Name) : Sexp := Sexp.node "n" [posS n.position, Sexp.str n.name]
-def varS (v : Variable) : Sexp := Sexp.node "var" [posS v.position, nameS v.name]
-
-mutual
-def valueS : Value → Sexp
-  | .var v => varS v
-  | .int s p => Sexp.node "int" [posS (Value.int s p).position, Sexp.str s]
-  | .float s p => Sexp.node "float" [posS (Value.float s p).position, Sexp.str s]
-  | .str s p => Sexp.node "str" [posS (Value.str s p).position, Sexp.str s]
-  | .bool b p => Sexp.node "bool" [posS (Value.bool b p).position, Sexp.ofBool b]
-  | .null p => Sexp.node "null" [posS (Value.null p).position]
-  | .enum s p => Sexp.node "enum" [posS (Value.enum s p).position, Sexp.str s]
-  | .list vs o c => Sexp.list (Sexp.atom "list" :: posS (Value.list vs o c).position :: posS c :: valuesS vs)
-  | .obj fs o c => Sexp.list (Sexp.atom "obj" :: posS (Value.obj fs o c).position :: posS c :: fieldsS fs)
-def valuesS : List Value → List Sexp
-  | [] => []
-  | v :: vs => valueS v :: valuesS vs
-def fieldsS : List (Name × Value) → List Sexp
-  | [] => []
-  | (n, v) :: fs => Sexp.node "of" [posS (objectFieldPosition (n, v)), nameS n, valueS v] :: fieldsS fs
-end
-
-def namedS (n : Name) : Sexp := Sexp.node "named" [posS (namedTypePosition n), nameS n]
-
-def typeS : TypeExpr → Sexp
-  | .named n => namedS n
-  | .list t o c => Sexp.node "listT" [posS (TypeExpr.list t o c).position, posS c, typeS t]
-  | .nonNull t => Sexp.node "nonnull" [posS (TypeExpr.nonNull t).position, typeS t]
-
-def argS (a : Argument) : Sexp := Sexp.node "arg" [posS a.position, nameS a.name, valueS a.value]
-def dirS (d : Directive) : Sexp := Sexp.node "dir" [posS d.position, nameS d.name, Sexp.list (d.args.map argS)]
-def optS {α : Type} (f : α → Sexp) : Option α → Sexp
-  | some a => f a
-  | none => Sexp.atom "none"
-def varDefS (v : VarDef) : Sexp :=
-  Sexp.node "vardef" [posS v.position, varS v.var, typeS v.type, optS valueS v.default]
-
-mutual
-def selectionS : Selection → Sexp
-  | .field al n args dirs sel =>
-    Sexp.node "field" [posS (Selection.field al n args dirs sel).position, optS nameS al, nameS n,
-      Sexp.list (args.map argS), Sexp.list (dirs.map dirS),
-      (match sel with
-       | some s => selSetS s
-       | none => Sexp.atom "none")]
-  | .spread e n dirs =>
-    Sexp.node "spread" [posS (Selection.spread e n dirs).position, nameS n, Sexp.list (dirs.map dirS)]
-  | .inline e tc dirs sel =>
-    Sexp.node "inline" [posS (Selection.inline e tc dirs sel).position, optS namedS tc,
-      Sexp.list (dirs.map dirS), selSetS sel]
-def selSetS : SelSet → Sexp
-  | .mk sels o c => Sexp.list (Sexp.atom "ss" :: posS (SelSet.mk sels o c).position :: posS c :: selsS sels)
-def selsS : List Selection → List Sexp
-  | [] => []
-  | s :: ss => selectionS s :: selsS ss
-end
-
-def opTypeS (t : OpType) : Sexp := Sexp.node "optype" [posS t.position, Sexp.str t.value]
-
-def definitionS : Definition → Sexp
-  | .op t name vars dirs sel =>
-    Sexp.node "op" [posS (Definition.op t name vars dirs sel).position, optS opTypeS t, optS nameS name,
-      Sexp.list (vars.map varDefS), Sexp.list (dirs.map dirS), selSetS sel]
-  | .frag p n tc dirs sel =>
-    Sexp.node "frag" [posS (Definition.frag p n tc dirs sel).position, nameS n, namedS tc,
-      Sexp.list (dirs.map dirS), selSetS sel]
-
-def documentS (d : Document) : Sexp :=
-  Sexp.list (Sexp.atom "doc" :: posS d.position :: d.defs.map definitionS)
-
-def errS (e : Err) : Sexp := Sexp.node "e" [Sexp.str e.msg, Sexp.ofNat e.pos.line, Sexp.ofNat e.pos.col]
-def errsS (es : List Err) : Sexp := Sexp.list (es.map errS)
-
-/-! decoding of requests -/
-
-def err? : Sexp → Option Err
-  | Sexp.list [Sexp.atom "e", Sexp.atom m, l, c] => do
-    let l ← l.nat?
-    let c ← c.nat?
-    pure { msg := m, pos := ⟨l, c⟩ }
-  | _ => none
-
-def kind? : String → Option TokKind
-  | "p" => some .punct
-  | "n" => some .name
-  | "i" => some .int
-  | "f" => some .float
-  | "s" => some .string
-  | _ => none
-
-def tok? : Sexp → Option Tok
-  | Sexp.list (Sexp.atom k :: Sexp.atom v :: l :: c :: errs) => do
-    let k ← kind? k
-    let l ← l.nat?
-    let c ← c.nat?
-    let es ← errs.mapM err?
-    pure { kind := k, value := v, pos := ⟨l, c⟩, errs := es }
-  | _ => none
-
-def input? (eof : Sexp) (toks : List Sexp) : Option Input :=
-  match eof with
-  | Sexp.list (Sexp.atom "eof" :: l :: c :: errs) => do
-    let l ← l.nat?
-    let c ← c.nat?
-    let es ← errs.mapM err?
-    let ts ← toks.mapM tok?
-    pure { toks := ts, eofPos := ⟨l, c⟩, eofErrs := es }
-  | _ => none
-
-def handle (line : String) : String :=
-  match Sexp.parse line with
-  | some (Sexp.list (Sexp.atom "doc" :: m :: Sexp.atom leak :: eof :: toks)) =>
-    match m.nat?, input? eof toks with
-    | some maxRec, some inp =>
-      match ParseDocument maxRec inp (leak == "1") with
-      | .returned d es =>
-        toString (Sexp.node "ret" [documentS d, errsS es, Sexp.ofBool (wfDocument d),
-          Sexp.ofBool (Renders inp.toks d.stoks)])
-      | .recovered es => toString (Sexp.node "rec" [errsS es])
-      | .outOfFuel => "oof"
-    | _, _ => "bad-op"
-  | some (Sexp.list (Sexp.atom "val" :: m :: eof :: toks)) =>
-    match m.nat?, input? eof toks with
-    | some maxRec, some inp =>
-      match ParseValue maxRec inp with
-      | .returned v es => toString (Sexp.node "ret" [valueS v, errsS es])
-      | .recovered es => toString (Sexp.node "rec" [errsS es])
-      | .outOfFuel => "oof"
-    | _, _ => "bad-op"
-  | _ => "bad-op"
-
-end ApiFu.C06.Driver
+/- C06 model driver executable: see Driver.lean for the protocol. -/
+import ApiFu.C06.Driver
 
 def main : IO Unit := ApiFu.lineLoopPure ApiFu.C06.Driver.handle
